@@ -36,7 +36,7 @@ func init() {
 		Race:      true,
 		RaceFiles: []string{"csession.go", "ssesssion.go", "transport.go", "serveconn.go", "channel.go", "encoding.go"},
 		Shards:    shards(8, 16),
-		Timeout:   timeouts(4*time.Minute, 40*time.Minute),
+		Timeout:   timeouts(12*time.Minute, 90*time.Minute),
 		MinEvals:  300,
 		Required:  []string{"method:Auth", "method:Attach", "method:Walk", "method:Open", "method:Create", "method:Read", "method:Write", "method:Stat", "method:WStat", "method:Clunk", "method:Remove", "error_results", "clipped_reads", "clipped_writes", "walk_limit_local", "concurrent_cells", "concurrent_calls_own_result", "abandon_cells", "wrap_cells"},
 		Run:       runC09,
